@@ -493,9 +493,14 @@ def _put_one_constant(
                 raise NodeError(f'invalid Constant.value for {parent_cls.__name__} pattern expression'
                                 f', got {value.__class__.__name__}')
 
-    self._put_src(repr(value), *self.loc, True)
+    ln, col, end_ln, end_col = self.loc
+    src = repr(value)
+
+    self._put_src(src, ln, col, end_ln, end_col, True)
 
     ast.value = value
+
+    self._fix_joined_alnums(ln, col, ln, col + len(src))  # e.g. `not's'` -> `not 0`
 
     if hasattr(ast, 'kind'):  # reset any 'u' kind strings
         ast.kind = None
